@@ -120,6 +120,12 @@ def zoo_program(rng, bursts=(3, 12)):
             L.append("let cl%d = mk%d();" % (oi, oi))
             L.append(g)
             L.append("show(cl%d[0]()); show(cl%d[1](\"e${%d}\"));" % (oi, oi, n))
+        elif kind == 9 and rng.random() < 0.5:
+            # numbers whose bit patterns sit next to the tags of the boxed representation, alive across collections
+            L.append("let z%d = 0; let nums%d = [z%d / z%d, -(z%d / z%d), 1 / z%d, -1 / z%d, -z%d, 1e308 * 10, 5e-324 / 2, -(5e-324 / 2)]; let nf%d = Box(z%d / z%d);"
+                     % (oi, oi, oi, oi, oi, oi, oi, oi, oi, oi, oi, oi))
+            L.append(g)
+            L.append("show(nums%d); show(nf%d.get()); show(nums%d.len());" % (oi, oi, oi))
         else:
             L.append("let mp%d = {\"k${%d}\": [\"v${%d}\"]}; let ls%d = [mp%d, (mp%d, \"q${%d}\")];" % (oi, n, n, oi, oi, oi, n))
             L.append(g)
